@@ -78,6 +78,8 @@ int  exb_wait_select(int nfds, void *r, void *w, void *e, int64_t timeout_ms);
 /* raw write (no interceptor, no happens-before edge): used by the virtual name server to answer */
 long exb_raw_write(int fd, const void *buf, size_t len);
 long exb_raw_read(int fd, void *buf, size_t len);
+long exb_raw_close(int fd);
+long exb_raw_socketpair(int domain, int type, int protocol, int *fds);
 int  exb_raw_poll(void *fds, unsigned long nfds);                       /* ppoll with zero timeout */
 int  exb_raw_epoll(int epfd, void *events, int maxevents);              /* epoll_pwait with zero timeout */
 int  exb_raw_select(int nfds, void *r, void *w, void *e);               /* pselect6 with zero timeout */
